@@ -66,6 +66,8 @@ const (
 	OP_is_zero_2
 	OP_is_zero_4
 	OP_is_zero_8
+	OP_is_zero_f4
+	OP_is_zero_f8
 	OP_is_zero_map
 	OP_goto
 	OP_map_iter
@@ -129,6 +131,8 @@ var OpNames = [256]string{
 	OP_is_zero_2:      "is_zero_2",
 	OP_is_zero_4:      "is_zero_4",
 	OP_is_zero_8:      "is_zero_8",
+	OP_is_zero_f4:     "is_zero_f4",
+	OP_is_zero_f8:     "is_zero_f8",
 	OP_is_zero_map:    "is_zero_map",
 	OP_goto:           "goto",
 	OP_map_iter:       "map_iter",
@@ -346,6 +350,10 @@ func (self Instr) isBranch() bool {
 		fallthrough
 	case OP_is_zero_8:
 		fallthrough
+	case OP_is_zero_f4:
+		fallthrough
+	case OP_is_zero_f8:
+		fallthrough
 	case OP_map_check_key:
 		fallthrough
 	case OP_map_write_key:
@@ -393,6 +401,10 @@ func (self Instr) Disassemble() string {
 	case OP_is_zero_4:
 		fallthrough
 	case OP_is_zero_8:
+		fallthrough
+	case OP_is_zero_f4:
+		fallthrough
+	case OP_is_zero_f8:
 		fallthrough
 	case OP_is_zero_map:
 		fallthrough
